@@ -120,12 +120,22 @@ fn m1_body(shape: &'static [u8], hard: bool, iw: u8, cw: u8, crlf: bool) {
         k += 1;
     }
     let lit = leak_str(v);
+    m1_check(lit, hard, iw, cw, crlf, shape);
+}
+
+/// Common part of M1: runs the real rule on `lit` with a symbolic target layout and compares
+/// with the reference.
+fn m1_check(lit: &'static str, hard: bool, iw: u8, cw: u8, crlf: bool, shape: &'static [u8]) {
     let ind = any_upto(2);
     let cont = any_upto(2);
-    let ignored: bool = kani::any();
+    // concrete: a symbolic flag here turns the `Result<&mut Token, _>` handed out by
+    // `get_token_mut` into a merged value whose pointer CBMC no longer constant-propagates, and
+    // every string loop behind it is then unwound to the bound (measured: minutes -> out of memory)
+    let ignored = shape.len() > 0 && shape[0] == b'!';
     let rs = recon_settings(crlf, hard, iw, cw);
-    let tokens = vec![tok(lit, 0, TokenType::TextLiteral(TextLiteralKind::MultiLine))];
-    let mut ft = FormattedTokens::verif_new(leak_tokens(tokens), vec![fd(ignored, 1, ind, cont, 0)]);
+    // tokens on the stack, not in a Vec: the literal's bytes must stay constants for CBMC
+    let mut toks = [tok(lit, 0, TokenType::TextLiteral(TextLiteralKind::MultiLine))];
+    let mut ft = FormattedTokens::verif_new(&mut toks, vec![fd(ignored, 1, ind, cont, 0)]);
     let line = LogicalLine::new(None, 0, vec![0], LogicalLineType::Assignment);
     let changed = ms::format_multiline_strings(&rs, &line, &mut ft);
     let (t, f) = ft.get_token(0).unwrap();
@@ -158,6 +168,7 @@ fn m1_body(shape: &'static [u8], hard: bool, iw: u8, cw: u8, crlf: bool) {
         }
     }
     cover!(changed, "rewritten");
+    cover!(!changed, "left_alone");
     std::mem::forget(ft);
     std::mem::forget(line);
 }
@@ -275,3 +286,80 @@ pub fn c12_probe_log_stub() {
     assert!(log::max_level() == log::LevelFilter::Error);
 }
 pub fn probe_level() -> log::LevelFilter { log::LevelFilter::Error }
+
+/// M1a: the real `lines_custom` == reference line splitting: LF, CRLF and a lone CR each end a
+/// line (CRLF once), the pieces are returned without their terminators, in order; a trailing
+/// terminator does not start another line.
+fn m1a_body(n: usize) {
+    let mut arr = [0u8; 12];
+    let mut k = 0;
+    while k < n {
+        arr[k] = pick(&[b'a', b'\n', b'\r', b' ']);
+        k += 1;
+    }
+    #[cfg(kani)]
+    let text = unsafe { std::str::from_utf8_unchecked(&arr[..n]) };
+    #[cfg(not(kani))]
+    let text = std::str::from_utf8(&arr[..n]).unwrap();
+    let got = ms::lines_custom(text);
+    // reference: (start, end) of each line
+    let s = &arr[..n];
+    let mut starts = [0usize; 13];
+    let mut ends = [0usize; 13];
+    let mut m = 0;
+    let mut cur = 0;
+    let mut i = 0;
+    while i < n {
+        if s[i] == b'\n' || s[i] == b'\r' {
+            starts[m] = cur;
+            ends[m] = i;
+            m += 1;
+            if s[i] == b'\r' && i + 1 < n && s[i + 1] == b'\n' {
+                i += 1;
+            }
+            cur = i + 1;
+        }
+        i += 1;
+    }
+    if cur < n {
+        starts[m] = cur;
+        ends[m] = n;
+        m += 1;
+    }
+    assert!(got.len() == m, "number of lines differs from the reference");
+    let j: usize = kani::any();
+    kani::assume(j < m);
+    assert!(got[j].len() == ends[j] - starts[j], "line length differs from the reference");
+    assert!(got[j].as_ptr() as usize == s.as_ptr() as usize + starts[j], "line does not start where the reference says");
+    cover!(m >= 3, "three_lines");
+    std::mem::forget(got);
+}
+macro_rules! m1a { ($($name: ident => ($u: expr; $n: expr)),*) => {$(
+    str_harness! { fn $name() unwind($u) { m1a_body($n) } }
+)*}}
+m1a! { c12_m1a_lines_custom_len4 => (7; 4), c12_m1a_lines_custom_len5 => (8; 5), c12_m1a_lines_custom_len6 => (9; 6), c12_m1a_lines_custom_len7 => (10; 7) }
+
+
+// M1c: the same obligation on CONCRETE literals (one per instance) with the target layout
+// (indentation / continuation counters, ignored flag) symbolic: std's string iterators are
+// affordable for CBMC only when the bytes they walk over are constants. The catalogue covers
+// LF / CRLF / CR and mixed terminators, blank, short, over-indented and non-conforming lines,
+// tab/space bases, 5-quote delimiters.
+macro_rules! m1c { ($($name: ident => ($u: expr; $lit: expr, $h: expr, $iw: expr, $cw: expr, $crlf: expr)),* $(,)?) => {$(
+    str_harness! { fn $name() unwind($u) { m1_check($lit, $h, $iw, $cw, $crlf, if stringify!($name).as_bytes()[8] == b'i' { b"!ignored" } else { b"concrete" }) } }
+)*}}
+m1c! {
+    c12_m1c_lf_basic => (24; "\'\'\'\n  ab\n  \'\'\'", false, 2, 4, false),
+    c12_m1c_crlf_to_lf => (24; "\'\'\'\r\n  ab\r\n  \'\'\'", false, 2, 4, false),
+    c12_m1c_lf_to_crlf_tabs => (24; "\'\'\'\n\tab \n\t\'\'\'", true, 1, 1, true),
+    c12_m1c_cr_only => (24; "\'\'\'\r  ab\r  \'\'\'", false, 2, 2, false),
+    c12_m1c_cr_then_lf => (30; "\'\'\'\n a\r b\n c\n \'\'\'", false, 2, 2, true),
+    c12_m1c_crlf_then_empty_lf => (30; "\'\'\'\r\n a\r\n\n b\n \'\'\'", false, 2, 2, false),
+    c12_m1c_short_nonblank_line => (24; "\'\'\'\nx\n    \'\'\'", false, 2, 2, false),
+    c12_m1c_short_blank_line => (24; "\'\'\'\n \n  a\n  \'\'\'", false, 2, 2, false),
+    c12_m1c_overindented_and_trailing_blanks => (30; "\'\'\'\n    a  \n  \'\'\'", false, 2, 2, false),
+    c12_m1c_nonconforming => (24; "\'\'\'\n a\nb\n \'\'\'", false, 2, 2, false),
+    c12_m1c_text_before_closing_quotes => (24; "\'\'\'\n a\n b\'\'\'", false, 2, 2, false),
+    c12_m1c_ignored_untouched => (24; "\'\'\'\n  ab\n  \'\'\'", false, 2, 4, false),
+    c12_m1c_five_quotes => (30; "\'\'\'\'\'\n a\'\'\'\n \'\'\'\'\'", false, 2, 2, false),
+}
